@@ -440,15 +440,18 @@ func (w *Wallet) addrMgrWithChangeSource(dbtx walletdb.ReadWriteTx,
 	if changeKeyScope == nil {
 		changeKeyScope = &waddrmgr.KeyScopeBIP0086
 	}
-	addrType := waddrmgr.ScopeAddrMap[*changeKeyScope].InternalAddrType
-
-	// It's possible for the account to have an address schema override, so
-	// prefer that if it exists.
 	addrmgrNs := dbtx.ReadWriteBucket(waddrmgrNamespaceKey)
 	scopeMgr, err := w.Manager.FetchScopedKeyManager(*changeKeyScope)
 	if err != nil {
 		return nil, nil, err
 	}
+
+	// Start from the schema the scope was registered with: a custom scope
+	// is not listed in the table of default scopes.
+	addrType := scopeMgr.AddrSchema().InternalAddrType
+
+	// It's possible for the account to have an address schema override, so
+	// prefer that if it exists.
 	accountInfo, err := scopeMgr.AccountProperties(addrmgrNs, account)
 	if err != nil {
 		return nil, nil, err
